@@ -76,6 +76,12 @@ class Mod(object):
             self.add('{}...       "r")'.format(ind))
             fl = self.add('{}wrong {}'.format(ind, k))
             exc = 'GotWantException'
+        elif fail == 'want_after_bare':
+            prompts.append(self.add('{}>>> if True:'.format(ind)))
+            self.add("{}...     print('p{}')".format(ind, k))
+            self.add('{}...'.format(ind))
+            fl = self.add('{}wrong {}'.format(ind, k))
+            exc = 'GotWantException'
         elif fail == 'modfunc':
             fl = self.add('{}>>> vp_module_boom({})'.format(ind, k))
             prompts.append(fl)
@@ -117,7 +123,12 @@ class Mod(object):
         if pre:
             self.features.add('docstring_prefix:' + pre)
         shared = D.chance(2, 5)
-        if shared:
+        nosummary = (not shared) and layout in ('google', 'mixed') and D.chance(1, 4)
+        if nosummary:
+            # the docstring opens directly with a block tag (no summary line, no Args)
+            self.add('{}{}{}'.format(ind, pre, q))
+            self.features.add('docstring_without_summary')
+        elif shared:
             self.add('{}{}{}Summary line for {}'.format(ind, pre, q, callname))
             self.features.add('docstring_shared_first_line')
         else:
@@ -141,16 +152,17 @@ class Mod(object):
             self.add('')
             self.add('{}Just prose, no code, but >> and .... appear.'.format(ind))
         if layout in ('google', 'mixed'):
-            if D.bool():
+            if not nosummary and D.bool():
                 self.add('')
                 self.add('{}Args:'.format(ind))
                 self.add('{}    a (int): something'.format(ind))
-            if D.chance(1, 3):
+            if not nosummary and D.chance(1, 3):
                 self.add('')
                 self.add('{}Returns:'.format(ind))
                 self.add('{}    int: one'.format(ind))
             for b in range(D.choice([1, 2, 3, 1, 2, 6])):
-                self.add('')
+                if not (nosummary and b == 0):
+                    self.add('')
                 tag = D.choice(['Example:', 'Examples:', 'Doctest:', 'Example::', 'Example :'])
                 self.add(ind + tag)
                 lead = D.chance(1, 4)
